@@ -6,7 +6,7 @@ import ast
 from sa import flow
 from sa.model import AnalysisError, dotted, unparse
 from sa.rules import LEVEL_TEXT, rule
-from sa.rules.util import is_self_attr, iter_body_nodes
+from sa.rules.util import callee, closure_text, is_self_attr, iter_body_nodes
 
 LEVEL_TEXT["C13"] = (
     "Decides only the rejection and normalisation clauses of C13: requests the input cannot satisfy are refused before any "
@@ -98,8 +98,30 @@ def r13a(ctx):
                         pinned["first"] = True
                     if tgt.endswith("[-1]") and val.endswith(".divisions[-1]"):
                         pinned["last"] = True
+            if not all(pinned.values()):
+                # the interpolation may live in a helper: look at the helper whose result is handed to the constructor
+                ldefs = flow.Defs(lo)
+                for a in c.args[1:2]:
+                    v = ldefs.single_value(a.id, c) if isinstance(a, ast.Name) else a
+                    if isinstance(v, ast.Call):
+                        t = callee(model, rp.module, rp, v)
+                        if t is not None:
+                            pinned = _pinned_in(t[2])
             good = all(pinned.values())
             (ctx.ok if good else ctx.bad)("_repartition.Repartition._lower:pin-endpoints", rp.module.loc(c), "interpolated divisions are pinned to the input's first and last division on every path" if good else f"the interpolated divisions are not pinned to the input's own {[k for k, v in pinned.items() if not v]} division on every path (e.g. only under a dtype test): float round trips (datetime64 -> float64 -> datetime64) then move the outer boundaries and a satisfiable request is rejected or rows fall outside")
+
+
+def _pinned_in(fn):
+    """top-level (unconditional) statements of fn that overwrite x[0] / x[-1] with <frame>.divisions[0] / [-1]"""
+    pinned = {"first": False, "last": False}
+    for st in fn.body:
+        if isinstance(st, ast.Assign) and len(st.targets) == 1 and isinstance(st.targets[0], ast.Subscript):
+            tgt, val = ast.unparse(st.targets[0]), ast.unparse(st.value)
+            if tgt.endswith("[0]") and val.endswith(".divisions[0]"):
+                pinned["first"] = True
+            if tgt.endswith("[-1]") and val.endswith(".divisions[-1]"):
+                pinned["last"] = True
+    return pinned
 
 
 @rule(
@@ -112,16 +134,26 @@ def r13a(ctx):
 )
 def r13b(ctx):
     model = ctx.model
+    normalisers = {}
     for cname, attr in (("RepartitionToFewer", "_partitions_boundaries"), ("RepartitionSize", "_partition_boundaries")):
         c = model.cls(cname)
         fn = model.method(c, attr, own=True).node
         rets = [r.value for r in ast.walk(fn) if isinstance(r, ast.Return) and r.value is not None]
-        good = rets and all(isinstance(r, ast.Call) and dotted(r.func) == "_clean_new_division_boundaries" and len(r.args) == 2 and "npartitions" in ast.unparse(r.args[1]) for r in rets)
-        (ctx.ok if good else ctx.bad)(f"_repartition.{cname}.{attr}", c.module.loc(fn), "boundaries normalised (first = 0, last = input partition count)" if good else f"{cname}.{attr} returns boundaries without _clean_new_division_boundaries(boundaries, frame.npartitions): trailing input partitions can be left out of every output range")
-    mod, fn = model.func("_repartition", "_clean_new_division_boundaries")
-    t = ast.unparse(fn)
-    good = "insert(0, 0)" in t and "[-1] = frame_npartitions" in t
-    (ctx.ok if good else ctx.bad)("_repartition._clean_new_division_boundaries", mod.loc(fn), "forces first boundary 0 and last boundary = partition count" if good else "the boundary normaliser no longer forces the first boundary to 0 and the last to the partition count")
+        good = bool(rets)
+        for r in rets:
+            t = callee(model, c.module, c, r) if isinstance(r, ast.Call) else None
+            if t is None or len(r.args) != 2 or "npartitions" not in ast.unparse(r.args[1]):
+                good = False
+            else:
+                normalisers[id(t[2])] = t
+        (ctx.ok if good else ctx.bad)(f"_repartition.{cname}.{attr}", c.module.loc(fn), "boundaries returned through the normaliser (boundaries, input partition count)" if good else f"{cname}.{attr} returns boundaries without passing them through the boundary normaliser with the input's partition count: trailing input partitions can be left out of every output range")
+    if not normalisers:
+        raise AnalysisError("anchor vanished: boundary normaliser of the repartition layers")
+    for mod, _, fn in normalisers.values():
+        t = ast.unparse(fn)
+        a = [x.arg for x in fn.args.args]
+        good = "insert(0, 0)" in t and len(a) == 2 and f"[-1] = {a[1]}" in t
+        (ctx.ok if good else ctx.bad)(f"_repartition.{fn.name}", mod.loc(fn), "forces first boundary 0 and last boundary = partition count" if good else "the boundary normaliser no longer forces the first boundary to 0 and the last to the partition count")
     tm = model.cls("RepartitionToMore")
     ns = model.method(tm, "_nsplits", own=True).node
     t = ast.unparse(ns)
